@@ -102,6 +102,38 @@ Theorem foreign_refused_in_every_reachable_state :
     /\ r_trace x = [] /\ r_panic x = false /\ r_tok x = false.
 Proof. exact foreign_refused_reachable_lemma. Qed.
 
+(* ---- 5b. eviction is sound, for every capacity --------------------------------------
+   The call-state cache is a bounded LRU (get hit = move to front; put of a known call =
+   update + move to front; put of a new call = push front, then trim the back down to the
+   capacity; capacity 0 = disabled).  Capacities are part of the history ([OOn inst cap]
+   for ANY cap, also mid-history; [OOff]; [OReset]), so theorems 4 and 5 hold for every
+   capacity and every eviction order.  What makes them go through is exposed here: *)
+
+(* the list operations never invent or re-label a binding *)
+Theorem lru_put_sound : forall cap c r ch c0 r0,
+  cache_get c0 (cache_put cap c r ch) = Some r0 ->
+  (c0 = c /\ r0 = r) \/ (c0 <> c /\ cache_get c0 ch = Some r0).
+Proof. exact get_put. Qed.
+
+Theorem lru_hit_only_reorders : forall c ch c0, cache_get c0 (touch c ch) = cache_get c0 ch.
+Proof. exact get_touch. Qed.
+
+Theorem lru_within_capacity : forall cap c r ch, (length (cache_put cap c r ch) <= cap)%nat.
+Proof. exact length_put. Qed.
+
+(* after ANY history, on either process, whatever its capacity is at that point: the cache
+   holds at most capacity entries, and an entry found under call id c is exactly the fixed
+   half that /init minted for c - method name included - never another call's *)
+Theorem reachable_cache_entries_are_the_minted_calls :
+  forall reg pre, reg_ok reg = true ->
+  let s := exec sym_ct sym_seal reg (continue_dec sym_ct sym_open) (st0 sym_ct) pre in
+  let ptoks := ptoks_after reg (st0 sym_ct) [] pre in
+  forall i,
+    (length (ch_of _ s i) <= cap_of _ s i)%nat
+    /\ forall c r, cache_get c (ch_of _ s i) = Some r ->
+         exists k m info, In (k, m, c) ptoks /\ lookup reg m = Some info /\ r = resolved_for info c.
+Proof. exact reachable_cache_lemma. Qed.
+
 (* ---- 6. the code before commit e4cc5ac violated the property ---------------------- *)
 (* a producer-only state's tokens at an exchange route: after rehydrate and the hook ran,
    the unchecked type assertion panics out of ServeHTTP *)
@@ -152,3 +184,22 @@ Example premises_of_5_satisfiable :
   /\ nth_error (ptoks_after std_reg (st0 sym_ct) [] [OInit false 6; OInit true 7; OReset false]) 0
      = Some (KCursor, 6%nat, 0).
 Proof. split; vm_compute; reflexivity. Qed.
+
+(* an eviction actually happens: capacity 1, /prod/init (call 0) then /e2/init (call 1) -
+   call 0's entry is gone; its cursor at e2's route without the call token is a miss (400),
+   with its call token the miss path reads "prod" (400) and stores call 0 again, evicting
+   call 1; prod's own route then hits (one turn) and e2's own cursor misses (400) *)
+Example eviction_happens_capacity_1 :
+  let ops := [OOn false 1; OInit false 0; OInit false 7] in
+  ch_of _ (exec sym_ct sym_seal std_reg (continue_dec sym_ct sym_open) (st0 sym_ct) ops) false
+  = [(1, {| r_meth := str "e2"; r_schema := true; r_stream := 1 |})]
+  /\ model {| i_reg := std_reg;
+              i_ops := ops ++ [OCont false 7 (TTok 0 false) TNone false Data false;
+                               OCont false 7 (TTok 0 false) (TTok 1 false) false Data false;
+                               OCont false 0 (TTok 0 false) TNone false Tick false;
+                               OCont false 7 (TTok 2 false) TNone false Data false] |}
+     = [R 0 [] false [] false; R 200 [] false [] true; R 200 [] false [] true;
+        R 400 exc_runtime_error false [] false; R 400 exc_runtime_error false [] false;
+        R 200 [] false [ARehyd 1 0; AHook 0 false; AProduce 1] true;
+        R 400 exc_runtime_error false [] false].
+Proof. vm_compute. split; reflexivity. Qed.
